@@ -1,6 +1,8 @@
-"""C12 - failures are contained, reported and recovered from (DESIGN §5 C12)"""
-import json, vlib, pmcheck
+"""C12 - failures are contained, reported and recovered from (DESIGN §5 C12), device layer: see props/C07.py"""
+import json, C07
 def run(ctx, V):
-    pmcheck.standard_run(ctx, V, ["alive", "c12", "c10", "protocol", "wedge"], styles=("faults",), n_quick=600)
+    C07.run_devlayer(ctx, V, ("timeout", "backoff", "timer", "count", "fifo", "login"), 260, 6000, ["alive", "c12", "c10", "protocol", "wedge"], ("faults",), 300,
+                     "C12: a head past its deadline takes every queued client action with it (one failure completion each, none left queued); per pass at most one "
+                     "connect attempt, only when retry_count = 0 or backoff(retry_count) elapsed (exact check against the previous pass's dump unless a request came in between).")
 def replay(ctx, V, path):
     print(json.dumps(json.load(open(path)), indent=1)[:6000]); return 0
